@@ -503,6 +503,24 @@ async def _(c):
         s.do(_sleep(5), volatile=True)
         c.mark('scope_volatile_only:s')
     c.mark('scope_volatile_only:e')
+    # the block's own notification fires while the body is postponed for the last time: when the body ends, the
+    # interrupt is queued already - the block still ends normally, and leaving it still yields
+    g = Flag()
+    c.counters.append(0)
+    c.done.append(False)
+    me = len(c.counters) - 1
+
+    async def setter():
+        # a competitor of its own: it is runnable (postponed by `set`) when the block is left
+        await g.set()
+        c.counters[me] += 1
+        c.done[me] = True
+    async with Scope() as outer:
+        async with until(g):
+            outer.do(setter())
+            await instant
+            c.mark('until_interrupt_pending_at_exit:s')
+        c.mark('until_interrupt_pending_at_exit:e')
 
 
 POSITIONS = ('root', 'child', 'until', 'lock', 'after_interrupt')
@@ -604,7 +622,7 @@ class C20(Check):
             if now != t0:
                 continue
             out.nt_keys.add(seg)
-            starved = [j for j in range(case['k']) if not d0[j] and counters[j] == c0[j]]
+            starved = [j for j in range(len(c0)) if not d0[j] and counters[j] == c0[j]]      # (an operation may add a competitor)
             if starved:
                 out.fail('yield', '%s/%s' % (case['op'], seg),
                          '%s [%s] at position %s with %d spinners completed at t=%r without letting spinner(s) %r run' % (
